@@ -33,6 +33,7 @@ class GenA:
     def __init__(self, seed, prop, snapshot, params):
         self.rng = random.Random(seed)
         self.prop = prop
+        self.boot_dim_names = sorted(snapshot["dims"])
         self.params = params
         self.snap = snapshot
         self.model = M.ModelWorld(snapshot)
@@ -524,7 +525,9 @@ class GenA:
             # a refused derive of a dimension that already has a name: its name stays bound
             named = sorted(self.model.dims)
             own = rng.choice(named)
-            others = [n for n in named if self.model.dims[n] != self.model.dims[own]]
+            # only names the boot itself declared count as certainly taken (a declaration made
+            # earlier in this history may have been interrupted by an injected exception)
+            others = [n for n in self.boot_dim_names if self.model.dims[n] != self.model.dims[own]]
             if others:
                 op = {"op": "dim_derive", "dim": ["d", own], "name": rng.choice(others), "fault": "dup_name"}
                 if rng.random() < 0.5:
